@@ -84,6 +84,9 @@ def fn_code_hash(fn: Callable, salt: str = None, environment: bytes = None) -> s
                 sha256.update(salt.encode("utf-8"))
             sha256.update(json.dumps(attr_values, sort_keys=True).encode("utf-8"))
             return sha256.hexdigest()[0:16]
+        elif isinstance(o, frozenset):
+            # repr() of a frozenset follows hash order, which differs between processes
+            return "frozenset({" + ", ".join(sorted(repr(x) for x in o)) + "})"
         else:
             return repr(o)
 
